@@ -79,6 +79,12 @@ def shapes(inst):
     add("sub-ambient-threshold", A.problem([(Z[1], Z[0], 2 * cpu * step, d), (Z[0], Z[1], cpu * step, d)], ["A", "B"]))
     add("zone-tree", A.problem([hot, cold, cold2], ["X", "Y", "X"], zone_tree={"name": "Plant", "type": "Site", "children": [
         {"name": "X", "type": "Process Zone"}, {"name": "Y", "type": "Process Zone"}]}))
+    add("site-in-site", A.problem([hot, cold, cold2], ["North/X", "North/Y", "South/X2"], zone_tree={"name": "Plant", "type": "Site", "children": [
+        {"name": "North", "type": "Site", "children": [{"name": "X", "type": "Process Zone"}, {"name": "Y", "type": "Process Zone"}]},
+        {"name": "South", "type": "Site", "children": [{"name": "X2", "type": "Process Zone"}]}]}))
+    add("community-root", A.problem([hot, cold, cold2], ["S1/X", "S1/Y", "S2/Z"], zone_tree={"name": "Town", "type": "Community", "children": [
+        {"name": "S1", "type": "Site", "children": [{"name": "X", "type": "Process Zone"}, {"name": "Y", "type": "Process Zone"}]},
+        {"name": "S2", "type": "Site", "children": [{"name": "Z", "type": "Process Zone"}]}]}))
     add("nested-labels", A.problem([hot, cold, cold2, hot2], ["A", "A/B", "A/B/C", "D"]))
     add("three-zones", A.problem([hot, cold, cold2, hot2, isoc], ["A", "B", "C", "A", "B"]))
     # streams that carry no duty (a row a user has not filled in yet): with a span, without one, and nothing else
@@ -184,7 +190,7 @@ def run(case, res: Result):
         n_zones_named = sum(1 for p2, z2 in S.walk(master) if z2.name == z.name and (z2.identifier != "Unit Operation" or opts.get("DO_DIRECT_OPERATION_TARGETING", False)))
         if recs.count(key) != n_zones_named:
             res.violate("direct_integration_record_count", case, {"shape": name, "zone": "/".join(path), "records": recs},
-                        f"di_record_count:{z.identifier}:" + tag)
+                        f"di_record_count:{z.identifier}:" + ("a-zone-type-above-the-site-is-traversed-but-never-targeted" if z.identifier in ("Community", "Region") else tag))
             break
     # temperatures within the envelope
     lo, hi = envelope(prob, opts)
@@ -244,7 +250,7 @@ SUBCHECKS = {
         rule="case = (input shape, option deviations); every case is non-trivial by construction (a degenerate shape or a deviating option); "
              "transitions = 2 service calls (the repeat check); outcomes = distinct target lists or 'raises'",
         cases=cases, run=run,
-        bound=lambda t: "25 named shapes x all option assignments with <=1 deviation (18) + all <=2-multisets of 36 lattice stream types x {defaults, each boolean option flipped}" if t == "quick"
-        else "25 named shapes x all option assignments with <=2 deviations (~150) + lattice multisets x all <=1 deviations",
+        bound=lambda t: "27 named shapes x all option assignments with <=1 deviation (18) + all <=2-multisets of 36 lattice stream types x {defaults, each boolean option flipped}" if t == "quick"
+        else "27 named shapes x all option assignments with <=2 deviations (~150) + lattice multisets x all <=1 deviations",
     ),
 }
